@@ -302,8 +302,17 @@ class Model:
 
     def select(self, opt, import_failed=()):
         """Expected tests per layer full name, in discovery order (before shuffling)."""
-        accept_t = filtering_func(opt.get('t') or ['.'])
-        accept_m = filtering_func(opt.get('m') or ['.'])
+        t_pats, m_pats = list(opt.get('t') or []), list(opt.get('m') or [])
+        pos = opt.get('positional') or []
+        # the deprecated positional filters: [module filter [test filter]]; '.' = no module
+        # filter; they are added to the -m / -t patterns
+        if pos and pos[0]:
+            if pos[0] != '.':
+                m_pats.append(pos[0])
+            if len(pos) > 1 and pos[1]:
+                t_pats.append(pos[1])
+        accept_t = filtering_func(t_pats or ['.'])
+        accept_m = filtering_func(m_pats or ['.'])
         at_level = opt.get('at_level', 1)
         if opt.get('all'):
             at_level = sys.maxsize
@@ -527,6 +536,10 @@ def argv(opt, src):
         a += ['--xml', os.path.join(os.path.dirname(src), 'xml')]
     for x in opt.get('extra') or []:
         a.append(x)
+    if opt.get('positional'):
+        if opt.get('dashdash'):
+            a.append('--')
+        a += list(opt['positional'])
     return a
 
 
@@ -537,6 +550,11 @@ def split_defaults(tokens, rng, p=0.5):
     i = 0
     takes_value = {'--path', '--test-path', '-t', '-m', '--layer', '--repeat', '--shuffle-seed',
                    '--ignore_dir', '--tests-pattern', '--test-file-pattern', '-s', '--xml'}
+    tail = []
+    if '--' in tokens:
+        # positional filters behind a '--' stay where they are
+        k = tokens.index('--')
+        tokens, tail = tokens[:k], tokens[k:]
     while i < len(tokens):
         if tokens[i] in takes_value and i + 1 < len(tokens):
             groups.append(tokens[i:i + 2])
@@ -548,10 +566,10 @@ def split_defaults(tokens, rng, p=0.5):
     for g in groups:
         # -j / --list-tests / --shuffle stay on the command line (they describe this run)
         if g[0].startswith('-j') or g[0] in ('--list-tests', '--shuffle') \
-                or g[0].startswith('--shuffle-seed'):
+                or g[0].startswith('--shuffle-seed') or not g[0].startswith('-'):
             args += g
         elif rng.random() < p:
             defaults += g
         else:
             args += g
-    return defaults, args
+    return defaults, args + tail
